@@ -44,6 +44,10 @@ def flag_variants(ctx, r) -> list[int]:
         if isinstance(st, ast.Assign) and len(st.targets) == 1 and isinstance(st.targets[0], ast.Name) \
                 and st.targets[0].id == fl.id:
             vals.update(alts(st.value, {}))
+    if not vals and fl.id in {a.arg for a in fn.args.posonlyargs + fn.args.args + fn.args.kwonlyargs}:
+        # the flags come in as a parameter (a helper that compiles for its caller): analysed under every combination of the two flags
+        # that change what a pattern of this package matches (IGNORECASE, DOTALL) - an over-approximation of what callers pass
+        return [0, 2, 16, 18]
     if not vals:
         raise AnalysisError(f'{r.where}: no assignment to flags variable {fl.id}')
     return sorted(vals)
@@ -193,6 +197,9 @@ def run(ctx, report: Report) -> None:
             if cn.startswith('re.') and cn.split('.')[1] not in ('compile', 'escape'):
                 a = mod.aliases.get('re')
                 if a and a[0] == 'module' and a[1] == 're':
+                    if any(r_.node is call for r_ in inv.regexes):
+                        r3.instance({'call': unparse(call)[:80], 'where': mod.where(call), 'pattern_in_inventory': True}, key=mod.where(call))
+                        continue
                     r3.instance({'call': unparse(call)[:80], 'where': mod.where(call)}, key=mod.where(call))
                     r3.violation(f'{mn}.{mod.enclosing_function(call)} {unparse(call)[:60]}', mod.where(call),
                                  f'module-level re.{cn.split(".")[1]}() call: its pattern is not in the regex inventory')
